@@ -96,6 +96,7 @@ def consts(ex_ctx_getter=None):
     return {
         "PLf": SpecFn(PL), "Q": SpecFn(Q), "S": SpecFn(S), "SLf": SpecFn(SL), "PX": SpecFn(PX), "NF": SpecFn(NF),
         "NEED1": SpecFn(lambda ev: ev.ex.ctx["need1"]),
+        "OFF": SpecFn(lambda ev, a: Z(a.off)),
         "np.float64": Opaque("float64", "dtype"),
     }
 
@@ -103,7 +104,8 @@ def consts(ex_ctx_getter=None):
 INV = [
     ("ghost_ranges", "T >= 0 and E >= 0"),
     ("hist_len", "self._hist_len == min(self._frame_length, SLf())"),
-    ("hist_content", "forall(i, 0, self._hist_len, self._buf[self._frame_length - self._hist_len + i] == S(SLf() - self._hist_len + i))"),
+    # index-normal form (the quantified variable IS the array index, so select(buf, k) is a usable trigger)
+    ("hist_content", "forall(k, self._frame_length - self._hist_len, self._frame_length, self._buf[k] == S(SLf() - self._frame_length + k))"),
     ("first", "implies(self._first_frame, self._buf_len == T and T < NEED1() and E == 0)"),
     ("later", "implies(not self._first_frame, SLf() >= self._frame_length and E == (SLf() - self._frame_length) // self._frame_shift + 1 "
               "and self._buf_len == SLf() - E * self._frame_shift)"),
@@ -235,4 +237,70 @@ def contract_finalize():
     c.no_param_writes = True
     if not hasattr(c, "canaries"):
         c.canaries = [("total_count_plus_one", "E + result.shape[0] == NF(T) + 1")]
+    return c
+
+
+# ------------------------------------------------------------------------------------------
+# compute_chunk
+# ------------------------------------------------------------------------------------------
+
+
+def setup_chunk(mode, known=()):
+    def setup(ex, st):
+        base_setup(ex, st, mode)
+        n = api.sym("n")
+        st.assume(n >= 0)
+        chunk = api.mk_array(st, "chunk", n, owner="param:chunk", dtype="chunkdtype")
+        st.env["chunk"] = chunk
+        st.env["n"] = n
+        ex.ctx["n"] = n
+    return setup
+
+
+def _after_requires_chunk(ex, st):
+    """the ghost stream now includes the chunk: X1 = X0 ++ chunk, T1 = T0 + n (E counts frames emitted before this call)"""
+    X0, T0, n = st.ghost["X"], Z(st.ghost["T"]), ex.ctx["n"]
+    C = st.heap["chunk"].content
+    k = z3.Int("xk")
+    st.ghost["X0"], st.ghost["T0"] = X0, T0
+    st.ghost["X"] = z3.Lambda([k], z3.If(k < T0, z3.Select(X0, k), z3.Select(C, k - T0)))
+    st.ghost["T"] = simp(T0 + n)
+
+
+CHUNK_LOOP_INV = [
+    ("range", "1 <= frame_idx <= num_frames"),
+    ("rows", "rows == frame_idx"),
+    ("mode", "not noncausal_first and frame_length == self._frame_length and not self._first_frame"),
+    ("lens", "total_len == chunk_len + buf_len and len(chunk) == chunk_len and chunk_len >= 0 and 0 <= buf_len <= hist_len <= self._frame_length"),
+    ("count", "total_len >= self._frame_length and num_frames == (total_len - self._frame_length) // self._frame_shift + 1"),
+    ("consumed_so_far", "PLf() + T == E * self._frame_shift + total_len"),
+    ("hist", "hist_len == min(self._frame_length, E * self._frame_shift + buf_len)"),
+    ("buf_content", "forall(k, self._frame_length - hist_len, self._frame_length, self._buf[k] == Q(E * self._frame_shift + buf_len - self._frame_length + k))"),
+    ("chunk_is_suffix", "OFF(chunk) == n - chunk_len"),
+    ("shift", "frame_shift == self._frame_shift"),
+]
+
+
+def contract_chunk():
+    c = Contract(
+        target=f"compute:{CLS}.compute_chunk",
+        uses=["A-PYSEM", "A-NP-PAD", "A-NP-SLICE", "A-NP-CAT"],
+        consts=consts(),
+        requires=[e for _, e in INV],
+        handlers={
+            "attr:num_coeffs": h_num_coeffs, "attr:started": h_started,
+            "self._compute_frame": make_h_compute_frame(lambda ev, pos: ev.ex.contract.consts["Q"].fn(ev, pos),
+                                                        lambda ex, st, r: (Z(st.ghost["E"]) + r) * ex.ctx["s"]),
+        },
+        loops={0: LoopSpec(kind="for", var="frame_idx", peel=1, modifies_ghost=["rows"], invariant=CHUNK_LOOP_INV)},
+        ensures=[("inv." + lab, e) for lab, e in INV] + [
+            ("rows_returned", "result.shape[0] == rows"),
+            ("columns", "result.shape[1] == self._nfilt + ite(self._include_energy, 1, 0)"),
+            ("started", "self._started"),
+        ],
+    )
+    c.after_requires = _after_requires_chunk
+    c.ghost_at_exit = {"E": "E + rows"}
+    c.no_param_writes = True
+    c.canaries = [("emits_one_frame_more", "result.shape[0] == rows + 1"), ("inv_E_off_by_one", "implies(not self._first_frame, E + 1 == (SLf() - self._frame_length) // self._frame_shift + 1)")]
     return c
